@@ -61,7 +61,6 @@ man = {
     "not_applicable": na,
     "notes": "Every check: source audit + lake build of the property's theorem module + axiom audit, then correspondence model-vs-code and a direct oracle on the real code. Exit 0 pass, 1 violation, 2 infrastructure failure. See DESIGN.md.",
 }
-if not na:
-    del man["not_applicable"]
+# (the list is kept even when it is empty: every one of the 20 properties is claimed, see DESIGN.md section 10)
 json.dump(man, open(os.path.join(VERIF, "MANIFEST.json"), "w"), indent=1)
 print(f"{len(checks)} checks, {len(na)} not_applicable")
